@@ -428,4 +428,682 @@ theorem parseRequestLine_ok (cmd : Bytes) : ∃ r, parseRequestLine cmd = .ok r 
       rw [substring?_ok _ _ _ (by omega) (Nat.le_refl _)]
       exact ⟨_, rfl⟩
 
+
+/-! ## the socket: every operation consumes input from the front and never gives bytes back -/
+
+theorem readLineLoop_len (inp acc : Bytes) (n : Nat) :
+    (readLineLoop inp acc n).2.1.length ≤ inp.length ∧
+    (inp ≠ [] → (readLineLoop inp acc n).2.1.length < inp.length) := by
+  induction inp generalizing acc n with
+  | nil => simp [readLineLoop]
+  | cons c t ih =>
+    unfold readLineLoop
+    by_cases h1 : (c == 10) = true
+    · simp [h1]
+    · by_cases h2 : n > 16000
+      · simp [h1, h2]
+      · simp only [h1, h2, if_false, Bool.false_eq_true]
+        have := (ih (c :: acc) (n + 1)).1
+        simp only [List.length_cons, ne_eq, reduceCtorEq, not_false_eq_true, forall_const]
+        omega
+
+/-- a socket on which reading can make progress -/
+def Live (s : Sock) : Prop := s.err = 0 ∧ s.closed = false ∧ s.inp ≠ []
+
+theorem readLine_facts (s : Sock) :
+    (s.readLine).2.inp.length ≤ s.inp.length ∧
+    (Live s → (s.readLine).2.inp.length < s.inp.length) ∧
+    (¬ Live s → (s.readLine).1 = []) := by
+  unfold Live Sock.readLine Sock.available Sock.waitInput Sock.readLineBody
+  by_cases hc : s.closed = true
+  · simp [hc]
+  · have hc' : s.closed = false := by simpa using hc
+    by_cases he : s.err = 0
+    · cases hi : s.inp with
+      | nil => simp [hc', he, hi, readLineLoop]
+      | cons c t =>
+        have h1 := readLineLoop_len (c :: t) [] 0
+        simp only [hc', he, hi, bne_self_eq_false, Bool.or_self, Bool.false_eq_true, if_false, List.length_cons,
+          Int.natCast_pos, Nat.zero_lt_succ, if_true, ne_eq, reduceCtorEq, not_false_eq_true, and_self, forall_const,
+          not_true_eq_false, false_implies, and_true]
+        have := h1.2 (by simp)
+        simp only [List.length_cons] at this
+        omega
+    · have he' : (s.err != 0) = true := by simpa using he
+      cases hi : s.inp with
+      | nil => simp [hc', he, he', hi]
+      | cons c t => simp [hc', he, he', hi]
+
+theorem readLine_closed (s : Sock) : (s.readLine).2.closed = s.closed := by
+  unfold Sock.readLine Sock.available Sock.waitInput Sock.readLineBody
+  by_cases hc : s.closed = true
+  · simp [hc]
+  · have hc' : s.closed = false := by simpa using hc
+    by_cases he : (s.err != 0) = true
+    · cases hi : s.inp <;> simp [hc', he, hi]
+    · have he' : (s.err != 0) = false := by simpa using he
+      by_cases ha : (s.inp.length : Int) > 0
+      · simp [hc', he', ha]
+      · simp [hc', he', ha]
+
+theorem rawRead_len (s : Sock) (n : Nat) :
+    (s.rawRead n).2.inp.length + (s.rawRead n).1.length = s.inp.length := by
+  unfold Sock.rawRead
+  by_cases h : (s.closed || n == 0) = true
+  · simp [h]
+  · simp only [h, Bool.false_eq_true, if_false]
+    split <;> simp only [List.length_drop, List.length_take] <;> omega
+
+theorem write_inp (s : Sock) (b : Bytes) : (s.write b).inp = s.inp := by
+  unfold Sock.write
+  by_cases h1 : b.isEmpty = true
+  · simp [h1]
+  · by_cases h2 : s.closed = true <;> simp [h1, h2]
+
+theorem expectContinue_inp (s : Sock) (h : Dic) : (expectContinue s h).inp = s.inp := by
+  unfold expectContinue
+  split
+  · split <;> exact write_inp _ _
+  · rfl
+
+theorem respond_inp (r : Req) (s : Sock) : (respond r s).1.inp = s.inp := by
+  unfold respond
+  simp only []
+  split
+  · exact write_inp _ _
+  · rw [write_inp, write_inp]
+
+/-! ## `readHeaders` -/
+
+theorem headersStep_ok (N : Nat) (x : HSt) (hx : x.s.inp.length ≤ N) :
+    (∃ r, headersStep x = .ok (.done r) ∧ r.1.inp.length ≤ N) ∨
+    (∃ y, headersStep x = .ok (.next y) ∧ y.s.inp.length ≤ N ∧ y.s.inp.length < x.s.inp.length) := by
+  unfold headersStep
+  obtain ⟨hle, hlt, hnil⟩ := readLine_facts x.s
+  simp only []
+  by_cases h13 : (cstr x.s.readLine.1 == [13]) = true
+  · left
+    simp only [h13, if_true]
+    exact ⟨_, rfl, by simp only []; omega⟩
+  · simp only [h13, Bool.false_eq_true, if_false]
+    rw [at?_zero]
+    simp only [bind, Except.bind]
+    by_cases hlive : Live x.s
+    · have hdec := hlt hlive
+      by_cases hsp : cIsSpace (x.s.readLine.1.getD 0 0) = true
+      · right
+        simp only [hsp, if_true]
+        exact ⟨_, rfl, by simp only []; omega, by simp only []; omega⟩
+      · simp only [hsp, Bool.false_eq_true, if_false]
+        cases hf : findByte 58 (cstr (trimmed x.s.readLine.1)) with
+        | none =>
+          left
+          simp only []
+          exact ⟨_, rfl, by simp only []; omega⟩
+        | some i =>
+          right
+          simp only []
+          have hi := (findByte_some hf).1
+          have hcl := cstr_length_le (trimmed x.s.readLine.1)
+          rw [substring?_ok _ _ _ (Nat.zero_le _) (by omega)]
+          simp only []
+          rw [substring?_ok _ _ _ (by omega) (Nat.le_refl _)]
+          simp only []
+          exact ⟨_, rfl, by simp only []; omega, by simp only []; omega⟩
+    · left
+      have hl := hnil hlive
+      simp only [hl]
+      have : cIsSpace (([] : Bytes).getD 0 0) = false := by decide
+      simp only [this, Bool.false_eq_true, if_false]
+      have h2 : findByte 58 (cstr (trimmed ([] : Bytes))) = none := by decide
+      simp only [h2]
+      exact ⟨_, rfl, by simp only []; omega⟩
+
+theorem readHeaders_ok (s : Sock) : ∃ r, readHeaders s = .ok r ∧ r.1.inp.length ≤ s.inp.length := by
+  unfold readHeaders
+  exact iterate_ok headersStep (fun x => x.s.inp.length) (fun x => x.s.inp.length ≤ s.inp.length)
+    (fun r => r.1.inp.length ≤ s.inp.length)
+    (fun x hx => by
+      rcases headersStep_ok s.inp.length x hx with h | ⟨y, h1, h2, h3⟩
+      · exact Or.inl h
+      · exact Or.inr ⟨y, h1, h2, h3⟩)
+    (s.inp.length + 2) ⟨s, [], [], []⟩ (Nat.le_refl _) (by simp only []; omega)
+
+/-! ## `readBody` -/
+
+theorem blocksStep_ok (N : Nat) (x : BSt) (hx : x.s.inp.length ≤ N) :
+    (∃ r, blocksStep x = .ok (.done r) ∧ r.s.inp.length ≤ N) ∨
+    (∃ y, blocksStep x = .ok (.next y) ∧ y.s.inp.length ≤ N ∧ y.s.inp.length < x.s.inp.length) := by
+  unfold blocksStep
+  have hr := rawRead_len x.s (min x.mx 16000).toNat
+  by_cases h1 : x.mx ≤ 0
+  · left; simp only [h1, if_true]; exact ⟨_, rfl, hx⟩
+  · simp only [h1, if_false]
+    by_cases h2 : ((x.s.rawRead (min x.mx 16000).toNat).1.length == 0) = true
+    · left; simp only [h2, if_true]; exact ⟨_, rfl, by simp only []; omega⟩
+    · simp only [h2, Bool.false_eq_true, if_false]
+      have hpos : (x.s.rawRead (min x.mx 16000).toNat).1.length ≠ 0 := by simpa using h2
+      by_cases h3 : (x.size != 0) = true
+      · simp only [h3, if_true]
+        by_cases h4 : x.size - ((x.s.rawRead (min x.mx 16000).toNat).1.length : Int) ≤ 0
+        · left; simp only [h4, if_true]; exact ⟨_, rfl, by simp only []; omega⟩
+        · right; simp only [h4, if_false]
+          exact ⟨_, rfl, by simp only []; omega, by simp only []; omega⟩
+      · right; simp only [h3, Bool.false_eq_true, if_false]
+        exact ⟨_, rfl, by simp only []; omega, by simp only []; omega⟩
+
+theorem readBlocks_ok (s : Sock) (mx size : Int) (body : Bytes) :
+    ∃ b, readBlocks s mx size body = .ok b ∧ b.s.inp.length ≤ s.inp.length := by
+  unfold readBlocks
+  exact iterate_ok blocksStep (fun x => x.s.inp.length) (fun x => x.s.inp.length ≤ s.inp.length)
+    (fun r => r.s.inp.length ≤ s.inp.length) (fun x hx => blocksStep_ok s.inp.length x hx)
+    (s.inp.length + 1) ⟨s, mx, size, body⟩ (Nat.le_refl _) (by simp only []; omega)
+
+/-- with something to read (`maxToRead ≥ 1`) on an open socket, the inner loop either returns from
+    `readBody` or has consumed at least one byte -/
+theorem readBlocks_progress (s : Sock) (mx size : Int) (body : Bytes) (hmx : mx ≥ 1) (hc : s.closed = false) :
+    ∃ b, readBlocks s mx size body = .ok b ∧ b.s.inp.length ≤ s.inp.length ∧
+      (b.ret = true ∨ b.s.inp.length < s.inp.length) := by
+  unfold readBlocks
+  -- first pass by hand
+  have hstep := blocksStep_ok s.inp.length ⟨s, mx, size, body⟩ (Nat.le_refl _)
+  simp only [iterate]
+  unfold blocksStep at hstep ⊢
+  have hr := rawRead_len s (min mx 16000).toNat
+  have h1 : ¬ mx ≤ 0 := by omega
+  simp only [h1, if_false] at hstep ⊢
+  by_cases h2 : ((s.rawRead (min mx 16000).toNat).1.length == 0) = true
+  · simp only [h2, if_true]
+    exact ⟨_, rfl, by simp only []; omega, Or.inl rfl⟩
+  · simp only [h2, Bool.false_eq_true, if_false]
+    have hpos : (s.rawRead (min mx 16000).toNat).1.length ≠ 0 := by simpa using h2
+    have hrest : ∀ (y : BSt), y.s.inp.length < s.inp.length →
+        ∃ b, iterate blocksStep s.inp.length y = .ok b ∧ b.s.inp.length ≤ s.inp.length ∧
+          (b.ret = true ∨ b.s.inp.length < s.inp.length) := by
+      intro y hy
+      obtain ⟨b, hb, hp⟩ := iterate_ok blocksStep (fun x => x.s.inp.length) (fun x => x.s.inp.length ≤ y.s.inp.length)
+        (fun r => r.s.inp.length ≤ y.s.inp.length) (fun x hx => blocksStep_ok y.s.inp.length x hx)
+        s.inp.length y (Nat.le_refl _) hy
+      exact ⟨b, hb, by omega, Or.inr (by omega)⟩
+    by_cases h3 : (size != 0) = true
+    · simp only [h3, if_true]
+      by_cases h4 : size - ((s.rawRead (min mx 16000).toNat).1.length : Int) ≤ 0
+      · simp only [h4, if_true]
+        exact ⟨_, rfl, by simp only []; omega, Or.inl rfl⟩
+      · simp only [h4, if_false]
+        exact hrest _ (by simp only []; omega)
+    · simp only [h3, Bool.false_eq_true, if_false]
+      exact hrest _ (by simp only []; omega)
+
+
+theorem available_nonneg {s : Sock} (h : ¬ s.available < 0) : s.err = 0 ∧ s.closed = false := by
+  unfold Sock.available at h
+  by_cases hc : (s.err != 0 || s.closed) = true
+  · simp [hc] at h
+  · simp only [Bool.or_eq_true, bne_iff_ne, ne_eq, not_or, Decidable.not_not, Bool.not_eq_true] at hc
+    exact hc
+
+theorem bodyStep_ok (chunked : Bool) (N : Nat) (x : BodySt) (hx : x.s.inp.length ≤ N) :
+    (∃ r, bodyStep chunked x = .ok (.done r) ∧ r.1.inp.length ≤ N) ∨
+    (∃ y, bodyStep chunked x = .ok (.next y) ∧ y.s.inp.length ≤ N ∧ y.s.inp.length < x.s.inp.length) := by
+  unfold bodyStep
+  simp only []
+  by_cases hav : x.s.available < 0
+  · left; simp only [hav, if_true]; exact ⟨_, rfl, hx⟩
+  · simp only [hav, if_false]
+    obtain ⟨he, hc⟩ := available_nonneg hav
+    cases chunked with
+    | true =>
+      simp only [if_true]
+      obtain ⟨hle, hlt, hnil⟩ := readLine_facts x.s
+      obtain ⟨b, hb, hbl⟩ := readBlocks_ok x.s.readLine.2 (hexToInt x.s.readLine.1) x.size x.body
+      rw [hb]
+      simp only [bind, Except.bind]
+      by_cases hret : b.ret = true
+      · left; simp only [hret, if_true]; exact ⟨_, rfl, by simp only []; omega⟩
+      · simp only [hret, Bool.false_eq_true, if_false]
+        have hr2 := rawRead_len b.s 2
+        by_cases h2 : (b.s.rawRead 2).1.length < 2
+        · left; simp only [h2, if_true]; exact ⟨_, rfl, by simp only []; omega⟩
+        · simp only [h2, if_false]
+          by_cases h0 : (hexToInt x.s.readLine.1 == 0) = true
+          · left; simp only [h0, if_true]; exact ⟨_, rfl, by simp only []; omega⟩
+          · right; simp only [h0, Bool.false_eq_true, if_false]
+            have hne : x.s.inp ≠ [] := by
+              intro hnil'
+              have : x.s.inp.length = 0 := by simp [hnil']
+              omega
+            have := hlt ⟨he, hc, hne⟩
+            exact ⟨_, rfl, by simp only []; omega, by simp only []; omega⟩
+    | false =>
+      simp only [Bool.false_eq_true, if_false]
+      have hmx : (if x.size > 0 && (if x.s.available ≤ 0 then (1 : Int) else x.s.available) > x.size then x.size
+          else (if x.s.available ≤ 0 then (1 : Int) else x.s.available)) ≥ 1 := by
+        by_cases ha : x.s.available ≤ 0
+        · simp only [ha, if_true]
+          split
+          · rename_i h; simp only [Bool.and_eq_true, decide_eq_true_eq] at h; omega
+          · omega
+        · simp only [ha, if_false]
+          split
+          · rename_i h; simp only [Bool.and_eq_true, decide_eq_true_eq] at h; omega
+          · omega
+      obtain ⟨b, hb, hbl, hprog⟩ := readBlocks_progress x.s _ x.size x.body hmx hc
+      rw [hb]
+      simp only [bind, Except.bind]
+      by_cases hret : b.ret = true
+      · left; simp only [hret, if_true]; exact ⟨_, rfl, by simp only []; omega⟩
+      · right; simp only [hret, Bool.false_eq_true, if_false]
+        rcases hprog with h | h
+        · exact absurd h hret
+        · exact ⟨_, rfl, by simp only []; omega, by simp only []; omega⟩
+
+theorem readBody_ok (s : Sock) (h : Dic) : ∃ r, readBody s h = .ok r ∧ r.1.inp.length ≤ s.inp.length := by
+  unfold readBody
+  simp only []
+  split
+  · exact ⟨_, rfl, Nat.le_refl _⟩
+  · split
+    · exact ⟨_, rfl, Nat.le_refl _⟩
+    · exact iterate_ok (bodyStep _) (fun x => x.s.inp.length) (fun x => x.s.inp.length ≤ s.inp.length)
+        (fun r => r.1.inp.length ≤ s.inp.length) (fun x hx => bodyStep_ok _ s.inp.length x hx)
+        (s.inp.length + 2) ⟨s, _, []⟩ (Nat.le_refl _) (by simp only []; omega)
+
+/-! ## `HttpRequest::read` and `HttpServer::serve` -/
+
+theorem read_ok (s : Sock) :
+    ∃ r, AslModel.HttpParse.read s = .ok r ∧ r.2.inp.length ≤ s.inp.length ∧ (Live s → r.2.inp.length < s.inp.length) ∧
+      hasDD r.1.path = false ∧ (∀ c ∈ r.1.path, c ≠ 0) := by
+  unfold AslModel.HttpParse.read
+  obtain ⟨hle, hlt, hnil⟩ := readLine_facts s
+  simp only []
+  split
+  · exact ⟨_, rfl, hle, hlt, rfl, by simp⟩
+  · obtain ⟨rl?, hrl⟩ := parseRequestLine_ok s.readLine.1
+    rw [hrl]
+    simp only [bind, Except.bind]
+    cases rl? with
+    | none => exact ⟨_, rfl, hle, hlt, rfl, by simp⟩
+    | some rl =>
+      simp only []
+      obtain ⟨hs, hhs, hhl⟩ := readHeaders_ok s.readLine.2
+      rw [hhs]
+      simp only []
+      obtain ⟨b, hb, hbl⟩ := readBody_ok (expectContinue hs.1 hs.2) hs.2
+      rw [hb]
+      simp only []
+      obtain ⟨t, ht, hdd, hnul⟩ := parseTarget_ok rl.res
+      rw [ht]
+      rw [expectContinue_inp] at hbl
+      refine ⟨_, rfl, by simp only []; omega, fun hl => ?_, hdd, hnul⟩
+      have := hlt hl
+      simp only []
+      omega
+
+theorem serveStep_ok (N : Nat) (x : SrvSt) (hx : x.s.inp.length ≤ N)
+    (hacc : ∀ q ∈ x.acc, hasDD q.path = false) :
+    (∃ r, serveStep x = .ok (.done r) ∧ r.1.inp.length ≤ N ∧ ∀ q ∈ r.2, hasDD q.path = false) ∨
+    (∃ y, serveStep x = .ok (.next y) ∧ (y.s.inp.length ≤ N ∧ ∀ q ∈ y.acc, hasDD q.path = false) ∧
+      y.s.inp.length < x.s.inp.length) := by
+  unfold serveStep
+  by_cases h0 : (x.s.closed || x.s.err != 0 || x.s.inp.isEmpty) = true
+  · left
+    simp only [h0, if_true]
+    exact ⟨_, rfl, hx, fun q hq => hacc q (List.mem_reverse.mp hq)⟩
+  · simp only [h0, Bool.false_eq_true, if_false]
+    have hlive : Live x.s := by
+      simp only [Bool.or_eq_true, bne_iff_ne, ne_eq, List.isEmpty_iff, not_or, Decidable.not_not, Bool.not_eq_true] at h0
+      exact ⟨h0.1.2, h0.1.1, h0.2⟩
+    obtain ⟨rs, hrs, hle, hlt, hdd, _⟩ := read_ok x.s
+    have hdec := hlt hlive
+    rw [hrs]
+    simp only [bind, Except.bind]
+    split
+    · left
+      exact ⟨_, rfl, by simp only []; omega, fun q hq => hacc q (List.mem_reverse.mp hq)⟩
+    · have hacc' : ∀ q ∈ (if (cstr rs.1.method == sOptions) = true then x.acc else rs.1 :: x.acc), hasDD q.path = false := by
+        intro q hq
+        split at hq
+        · exact hacc q hq
+        · rcases List.mem_cons.mp hq with rfl | hq
+          · exact hdd
+          · exact hacc q hq
+      have hinp : (respond rs.1 rs.2).1.inp.length = rs.2.inp.length := by rw [respond_inp]
+      split
+      · left
+        exact ⟨_, rfl, by simp only []; omega, fun q hq => hacc' q (List.mem_reverse.mp hq)⟩
+      · right
+        exact ⟨_, rfl, ⟨by simp only []; omega, hacc'⟩, by simp only []; omega⟩
+
+theorem serve_ok (s : Sock) :
+    ∃ r, serve s = .ok r ∧ r.1.inp.length ≤ s.inp.length ∧ ∀ q ∈ r.2, hasDD q.path = false := by
+  unfold serve
+  exact iterate_ok serveStep (fun x => x.s.inp.length)
+    (fun x => x.s.inp.length ≤ s.inp.length ∧ ∀ q ∈ x.acc, hasDD q.path = false)
+    (fun r => r.1.inp.length ≤ s.inp.length ∧ ∀ q ∈ r.2, hasDD q.path = false)
+    (fun x hx => serveStep_ok s.inp.length x hx.1 hx.2)
+    (s.inp.length + 1) ⟨s, []⟩ ⟨Nat.le_refl _, by simp⟩ (by simp only []; omega)
+
+
+/-! ## `Url::Url` -/
+
+theorem at?_val (s : Bytes) (i : Nat) (h : i ≤ s.length) : at? s i = .ok (s.getD i 0) := by
+  by_cases h1 : i < s.length
+  · exact at?_lt _ _ h1
+  · have : i = s.length := by omega
+    subst this
+    rw [at?_len]
+    simp [List.getD]
+
+theorem getD_cstr (l : Bytes) (k : Nat) (h : k < (cstr l).length) : (cstr l).getD k 0 = l.getD k 0 := by
+  obtain ⟨r, hr⟩ := cstr_prefix l
+  conv => rhs; rw [hr]
+  simp only [List.getD_eq_getElem?_getD]
+  rw [List.getElem?_append_left h]
+
+theorem indexOfByteFrom?_spec (s : Bytes) (c : UInt8) (i0 : Nat) (h : i0 ≤ s.length) :
+    ∃ r, indexOfByteFrom? s c i0 = .ok r ∧ ∀ k, r = some k → i0 ≤ k ∧ k < s.length ∧ s.getD k 0 = c := by
+  unfold indexOfByteFrom?
+  simp only [h, if_true, pure, Except.pure]
+  refine ⟨_, rfl, ?_⟩
+  intro k hk
+  simp only [Option.map_eq_some_iff] at hk
+  obtain ⟨k', hk', rfl⟩ := hk
+  obtain ⟨h1, h2, _⟩ := findByte_some hk'
+  have h3 := cstr_length_le (s.drop i0)
+  simp only [List.length_drop] at h3
+  refine ⟨by omega, by omega, ?_⟩
+  rw [getD_cstr _ _ h1] at h2
+  simp only [List.getD_eq_getElem?_getD, List.getElem?_drop] at h2
+  simp only [List.getD_eq_getElem?_getD]
+  rw [Nat.add_comm]
+  exact h2
+
+theorem isPrefix_len {p l : Bytes} (h : isPrefix p l = true) : p.length ≤ l.length := by
+  induction p generalizing l with
+  | nil => simp
+  | cons a p ih =>
+    cases l with
+    | nil => simp [isPrefix] at h
+    | cons b l =>
+      simp only [isPrefix, Bool.and_eq_true] at h
+      have := ih h.2
+      simp; omega
+
+theorem findSub_some_len {pat l : Bytes} {k : Nat} (h : findSub pat l = some k) : k + pat.length ≤ l.length := by
+  induction l generalizing k with
+  | nil =>
+    unfold findSub at h
+    by_cases hp : pat.isEmpty = true
+    · simp only [hp, if_true, Option.some.injEq] at h
+      subst h
+      have : pat = [] := by simpa using hp
+      simp [this]
+    · simp [hp] at h
+  | cons c t ih =>
+    unfold findSub at h
+    by_cases hp : isPrefix pat (c :: t) = true
+    · simp only [hp, if_true, Option.some.injEq] at h
+      subst h
+      have := isPrefix_len hp
+      omega
+    · simp only [hp, Bool.false_eq_true, if_false, Option.map_eq_some_iff] at h
+      obtain ⟨k', hk', rfl⟩ := h
+      have := ih hk'
+      simp; omega
+
+theorem urlPort_ok (url : Bytes) (portstart pathstart : Nat)
+    (h : portstart = 0 ∨ (portstart ≤ pathstart ∧ pathstart ≤ url.length)) : ∃ p, urlPort url portstart pathstart = .ok p := by
+  unfold urlPort
+  by_cases h0 : (portstart == 0) = true
+  · simp only [h0, if_true]; exact ⟨_, rfl⟩
+  · simp only [h0, Bool.false_eq_true, if_false]
+    have : portstart ≠ 0 := by simpa using h0
+    rcases h with h | ⟨h1, h2⟩
+    · exact absurd h this
+    · rw [substring?_ok _ _ _ h1 h2]; exact ⟨_, rfl⟩
+
+theorem urlBracket_ok (url protocol path : Bytes) (hoststart pathstart : Nat) (h1 : hoststart ≤ url.length)
+    (h2 : pathstart ≤ url.length) (h3 : pathstart = url.length ∨ url.getD pathstart 0 = 47) :
+    ∃ u, urlBracket url protocol path hoststart pathstart = .ok u := by
+  unfold urlBracket
+  obtain ⟨he, hhe, hb⟩ := indexOfByteFrom?_spec url 93 hoststart h1
+  rw [hhe]
+  simp only [bind, Except.bind]
+  cases he with
+  | none => exact ⟨_, rfl⟩
+  | some hostend =>
+    obtain ⟨hb1, hb2, hb3⟩ := hb hostend rfl
+    simp only []
+    by_cases hgt : hostend > pathstart
+    · simp only [hgt, if_true]; exact ⟨_, rfl⟩
+    · simp only [hgt, if_false]
+      rw [at?_val _ _ (by omega)]
+      simp only []
+      have hlt : hostend < pathstart := by
+        rcases h3 with h3 | h3
+        · omega
+        · have : hostend ≠ pathstart := by
+            intro heq
+            rw [heq, h3] at hb3
+            exact absurd hb3 (by decide)
+          omega
+      rw [substring?_ok _ _ _ hb1 (by omega)]
+      simp only []
+      have hport : (if (url.getD (hostend + 1) 0 == 58) = true then hostend + 2 else 0) = 0 ∨
+          ((if (url.getD (hostend + 1) 0 == 58) = true then hostend + 2 else 0) ≤ pathstart ∧ pathstart ≤ url.length) := by
+        by_cases hc : (url.getD (hostend + 1) 0 == 58) = true
+        · right
+          simp only [hc, if_true]
+          have hc' : url.getD (hostend + 1) 0 = 58 := by simpa using hc
+          refine ⟨?_, h2⟩
+          have : hostend + 1 ≠ pathstart := by
+            intro heq
+            rcases h3 with h3 | h3
+            · rw [heq, h3] at hc'
+              simp [List.getD] at hc'
+            · rw [heq, h3] at hc'
+              exact absurd hc' (by decide)
+          omega
+        · left; simp only [hc, Bool.false_eq_true, if_false]
+      obtain ⟨p, hp⟩ := urlPort_ok url _ pathstart hport
+      rw [hp]
+      exact ⟨_, rfl⟩
+
+theorem urlPlain_ok (url protocol path : Bytes) (hoststart pathstart : Nat) (h1 : hoststart ≤ pathstart)
+    (h2 : pathstart ≤ url.length) : ∃ u, urlPlain url protocol path hoststart pathstart = .ok u := by
+  unfold urlPlain
+  obtain ⟨j, hj, hb⟩ := indexOfByteFrom?_spec url 58 hoststart (by omega)
+  rw [hj]
+  simp only [bind, Except.bind]
+  cases j with
+  | none =>
+    simp only []
+    rw [substring?_ok _ _ _ h1 h2]
+    simp only []
+    obtain ⟨p, hp⟩ := urlPort_ok url 0 pathstart (Or.inl rfl)
+    rw [hp]
+    exact ⟨_, rfl⟩
+  | some jv =>
+    obtain ⟨hb1, hb2, _⟩ := hb jv rfl
+    simp only []
+    by_cases hlt : jv < pathstart
+    · simp only [hlt, if_true]
+      rw [substring?_ok _ _ _ hb1 (by omega)]
+      simp only []
+      obtain ⟨p, hp⟩ := urlPort_ok url (jv + 1) pathstart (Or.inr ⟨by omega, h2⟩)
+      rw [hp]
+      exact ⟨_, rfl⟩
+    · simp only [hlt, if_false]
+      rw [substring?_ok _ _ _ h1 h2]
+      simp only []
+      obtain ⟨p, hp⟩ := urlPort_ok url 0 pathstart (Or.inl rfl)
+      rw [hp]
+      exact ⟨_, rfl⟩
+
+theorem parseUrl_ok (url : Bytes) : ∃ u, parseUrl url = .ok u := by
+  unfold parseUrl
+  unfold indexOfSubFrom?
+  simp only [Nat.zero_le, if_true, pure, Except.pure, bind, Except.bind, List.drop_zero, Nat.add_zero, Option.map_id']
+  -- hoststart ≤ length
+  have hhs : ∀ k, findSub sSchemeSep (cstr url) = some k → k + 3 ≤ url.length := by
+    intro k hk
+    have := findSub_some_len hk
+    have h2 := cstr_length_le url
+    simp only [sSchemeSep, List.length_cons, List.length_nil] at this
+    omega
+  cases hi : findSub sSchemeSep (cstr url) with
+  | none =>
+    simp only [Option.map_none, Bool.false_eq_true, if_false, Option.getD_none]
+    obtain ⟨ps, hps, hpb⟩ := indexOfByteFrom?_spec url 47 0 (Nat.zero_le _)
+    rw [hps]
+    simp only []
+    have hpl : ps.getD url.length ≤ url.length := by
+      cases ps with
+      | none => simp
+      | some k => have := (hpb k rfl).2.1; simp; omega
+    have hp3 : ps.getD url.length = url.length ∨ url.getD (ps.getD url.length) 0 = 47 := by
+      cases ps with
+      | none => left; simp
+      | some k => right; simpa using (hpb k rfl).2.2
+    rw [substring?_ok _ _ _ (Nat.zero_le _) hpl]
+    simp only []
+    rw [substring?_ok _ _ _ hpl (Nat.le_refl _)]
+    simp only []
+    rw [at?_val _ _ (Nat.zero_le _)]
+    simp only []
+    split
+    · rename_i hc
+      have hne : url.getD 0 0 = 91 := by simpa using hc
+      have : 0 < url.length := by
+        cases url with
+        | nil => simp [List.getD] at hne
+        | cons a t => simp
+      exact urlBracket_ok _ _ _ _ _ (by omega) hpl hp3
+    · exact urlPlain_ok _ _ _ _ _ (Nat.zero_le _) hpl
+  | some k =>
+    have hk3 := hhs k hi
+    simp only [Option.map_some, Option.getD_some]
+    by_cases hpos : (decide (k > 0)) = true
+    · simp only [hpos, if_true]
+      rw [substring?_ok _ _ _ (Nat.zero_le _) (by omega)]
+      simp only []
+      obtain ⟨ps, hps, hpb⟩ := indexOfByteFrom?_spec url 47 (k + 3) hk3
+      rw [hps]
+      simp only []
+      have hpl : ps.getD url.length ≤ url.length := by
+        cases ps with
+        | none => simp
+        | some k' => have := (hpb k' rfl).2.1; simp; omega
+      have hpg : k + 3 ≤ ps.getD url.length := by
+        cases ps with
+        | none => simpa using hk3
+        | some k' => have := (hpb k' rfl).1; simpa using this
+      have hp3 : ps.getD url.length = url.length ∨ url.getD (ps.getD url.length) 0 = 47 := by
+        cases ps with
+        | none => left; simp
+        | some k' => right; simpa using (hpb k' rfl).2.2
+      rw [substring?_ok _ _ _ hpg hpl]
+      simp only []
+      rw [substring?_ok _ _ _ hpl (Nat.le_refl _)]
+      simp only []
+      rw [at?_val _ _ hk3]
+      simp only []
+      split
+      · rename_i hc
+        have hne : url.getD (k + 3) 0 = 91 := by simpa using hc
+        have : k + 3 < url.length := by
+          by_cases hlt : k + 3 < url.length
+          · exact hlt
+          · have : k + 3 = url.length := by omega
+            rw [this] at hne
+            simp [List.getD] at hne
+        exact urlBracket_ok _ _ _ _ _ (by omega) hpl hp3
+      · exact urlPlain_ok _ _ _ _ _ hpg hpl
+    · simp only [hpos, Bool.false_eq_true, if_false]
+      obtain ⟨ps, hps, hpb⟩ := indexOfByteFrom?_spec url 47 0 (Nat.zero_le _)
+      rw [hps]
+      simp only []
+      have hpl : ps.getD url.length ≤ url.length := by
+        cases ps with
+        | none => simp
+        | some k' => have := (hpb k' rfl).2.1; simp; omega
+      have hp3 : ps.getD url.length = url.length ∨ url.getD (ps.getD url.length) 0 = 47 := by
+        cases ps with
+        | none => left; simp
+        | some k' => right; simpa using (hpb k' rfl).2.2
+      rw [substring?_ok _ _ _ (Nat.zero_le _) hpl]
+      simp only []
+      rw [substring?_ok _ _ _ hpl (Nat.le_refl _)]
+      simp only []
+      rw [at?_val _ _ (Nat.zero_le _)]
+      simp only []
+      split
+      · rename_i hc
+        have hne : url.getD 0 0 = 91 := by simpa using hc
+        have : 0 < url.length := by
+          cases url with
+          | nil => simp [List.getD] at hne
+          | cons a t => simp
+        exact urlBracket_ok _ _ _ _ _ (by omega) hpl hp3
+      · exact urlPlain_ok _ _ _ _ _ (Nat.zero_le _) hpl
+
+
+/-! ## header names: `capitalized` -/
+
+theorem byte_cases (P : UInt8 → Prop) (h : ∀ n, n < 256 → P (UInt8.ofNat n)) : ∀ c, P c := by
+  intro c
+  have := h c.toNat c.toNat_lt
+  simpa using this
+
+theorem case_facts : ∀ n, n < 256 →
+    toUpper (toLower (UInt8.ofNat n)) = toUpper (UInt8.ofNat n) ∧ toLower (toUpper (UInt8.ofNat n)) = toLower (UInt8.ofNat n) ∧
+    toUpper (toUpper (UInt8.ofNat n)) = toUpper (UInt8.ofNat n) ∧ toLower (toLower (UInt8.ofNat n)) = toLower (UInt8.ofNat n) := by
+  decide +kernel
+
+theorem case_facts' (c : UInt8) :
+    toUpper (toLower c) = toUpper c ∧ toLower (toUpper c) = toLower c ∧
+    toUpper (toUpper c) = toUpper c ∧ toLower (toLower c) = toLower c :=
+  byte_cases (fun c => toUpper (toLower c) = toUpper c ∧ toLower (toUpper c) = toLower c ∧
+    toUpper (toUpper c) = toUpper c ∧ toLower (toLower c) = toLower c) case_facts c
+
+theorem capAux_lower (cap : Bool) (s : Bytes) : capAux cap (s.map toLower) = capAux cap s := by
+  induction s generalizing cap with
+  | nil => rfl
+  | cons c t ih =>
+    obtain ⟨h1, h2, h3, h4⟩ := case_facts' c
+    cases cap <;> simp only [List.map_cons, capAux, Bool.false_eq_true, if_false, if_true, h1, h4, ih]
+
+theorem capAux_upper (cap : Bool) (s : Bytes) : capAux cap (s.map toUpper) = capAux cap s := by
+  induction s generalizing cap with
+  | nil => rfl
+  | cons c t ih =>
+    obtain ⟨h1, h2, h3, h4⟩ := case_facts' c
+    cases cap <;> simp only [List.map_cons, capAux, Bool.false_eq_true, if_false, if_true, h2, h3, ih]
+
+theorem capAux_idem (cap : Bool) (s : Bytes) : capAux cap (capAux cap s) = capAux cap s := by
+  induction s generalizing cap with
+  | nil => rfl
+  | cons c t ih =>
+    obtain ⟨h1, h2, h3, h4⟩ := case_facts' c
+    cases cap <;> simp only [capAux, Bool.false_eq_true, if_false, if_true, h3, h4, ih]
+
+/-! ## the header dictionary -/
+
+theorem cmpBytes_refl (a : Bytes) : cmpBytes a a = .eq := by
+  induction a with
+  | nil => rfl
+  | cons x t ih => simp [cmpBytes, ih]
+
+theorem dicFind_dicSet_same (d : Dic) (k v : Bytes) : dicFind (dicSet d k v) k = some v := by
+  induction d with
+  | nil => simp [dicSet, dicFind, cmpBytes_refl]
+  | cons kv t ih =>
+    obtain ⟨k', v'⟩ := kv
+    unfold dicSet
+    cases hc : cmpBytes (cstr k') (cstr k) with
+    | lt => simp only [dicFind, hc, ih]
+    | eq => simp only [dicFind, hc]
+    | gt => simp only [dicFind, cmpBytes_refl]
+
 end AslProofs.HttpParse
